@@ -54,6 +54,7 @@ fn main() {
         "bloomfp" => extra = comp::suite_bloomfp(&mut rng, cases, &mut t),
         "keys" => extra = comp::suite_keys(&mut rng, cases, &mut t),
         "ticker" => extra = cachesuite::suite_ticker(&mut t),
+        "defaults" => extra = cachesuite::suite_defaults(&mut t),
         "replay" => {
             let f = arg(&args, "--in").expect("--in FILE");
             let txt = std::fs::read_to_string(f).unwrap_or_default();
